@@ -136,8 +136,26 @@ pub fn c08(ctx: &Ctx) -> i32 {
     out.inconclusive.extend(lout.inconclusive);
     out.distinct.merge(lout.distinct);
     out.census.merge(&lout.census);
+    // huge batches: single steps with tens of thousands of instructions (both environment kinds)
+    let huge_n = [66_000usize, 70_001, 5000, 131_073];
+    let mut huge_done = 0u64;
+    for (k, n) in huge_n.iter().enumerate().take(ctx.tier.pick(3, 4)) {
+        let seed = crate::util::Sm::derive(ctx.seed, 0x4855_00 + k as u64).next();
+        let r = if k % 2 == 0 { crate::extra::huge_step::<bourse_de::Env<10>>(seed, *n) } else { crate::extra::huge_step::<bourse_de::MarketEnv<3, 5>>(seed, *n) };
+        match r {
+            Ok(_) => huge_done += *n as u64,
+            Err((kind, detail)) => {
+                if kind == "harness" {
+                    out.inconclusive.push(format!("huge batch: {}", detail));
+                } else {
+                    out.violations.push(crate::report::Violation { signature: format!("C08:step:{}", kind), summary: format!("step / {} in a huge batch: {}", kind, detail), replay: json!({"kind": "huge_step", "property": "C08", "seed": seed, "n": n, "env": k % 2}) });
+                }
+            }
+        }
+    }
     let c = &out.census;
     let mut inconclusive = floors(&[
+        ("instructions_in_huge_batches", huge_done, 100_000),
         ("steps_in_long_sessions", long_steps, 5000),
         ("steps", c.steps, 5000),
         ("instructions", c.instructions, 50_000),
@@ -156,6 +174,7 @@ pub fn c08(ctx: &Ctx) -> i32 {
         "evaluations": c.steps,
         "distinct_nontrivial": out.distinct.len(),
         "long_sessions": {"sessions": lspec.sessions, "steps": long_steps, "max_steps_per_session": 1500},
+        "huge_batches": {"batch_sizes": huge_n, "instructions": huge_done},
         "rule": "cases = simulation steps of seeded environment sessions (most with up to 30 steps, a few with up to 1500; 10 environment types: Env<1|3|10|24>, MarketEnv<1..4 assets>), each with a G-env batch of new-order / cancel / modify instructions (several per order, targets created in the same batch, crossing prices, market orders), batch size 0..step size, trading toggled between steps; distinct = distinct (batch shape, inferred processing order) hashes; non-trivial = batches with at least 2 instructions",
         "samples": out.samples,
         "census": c,
